@@ -48,6 +48,23 @@ func (f *FuseFile) Read(fh uint64, off uint64, size uint32) ([]byte, fuse.Status
 	return out, st2
 }
 
+// ReadInterruptible is Read with the channel through which the kernel tells the file system that the request was
+// interrupted (the reading process got a signal): closing it cancels the request's context.
+func (f *FuseFile) ReadInterruptible(cancel <-chan struct{}, fh uint64, off uint64, size uint32) ([]byte, fuse.Status) {
+	buf := make([]byte, size)
+	res, st := f.raw.Read(cancel, &fuse.ReadIn{InHeader: fuse.InHeader{NodeId: f.Node}, Fh: fh, Offset: off, Size: size}, buf)
+	if st != fuse.OK {
+		return nil, st
+	}
+	if res == nil {
+		return nil, fuse.OK
+	}
+	b, st2 := res.Bytes(buf)
+	out := append([]byte(nil), b...)
+	res.Done()
+	return out, st2
+}
+
 func (f *FuseFile) Release(fh uint64) {
 	f.raw.Release(nil, &fuse.ReleaseIn{InHeader: fuse.InHeader{NodeId: f.Node}, Fh: fh})
 }
